@@ -212,7 +212,7 @@ func observe(text string, attr string, pr probe) (rank int, out string, ok bool)
 	if pr.val != nil {
 		data = pr.val()
 	}
-	r := tx.Run(text, map[string]interface{}{"V": data, "C": true, "L": []int{1}})
+	r := tx.Run(text, map[string]interface{}{"V": data, "C": true, "NC": false, "L": []int{1}})
 	if r.Panic != nil || r.ParseErr != nil {
 		return 0, "", false
 	}
@@ -341,6 +341,9 @@ func run(c *core.Ctx) {
 		}
 		checkCell(c, "<"+e+">{{.V}}</"+e+">", "", p.contentClass(e))
 		checkCell(c, "<"+strings.ToUpper(e)+" title=\"x\">a{{.V}}", "", p.contentClass(e))
+		// a slash before '>' does not make a non-void element empty
+		checkCell(c, "<"+e+"/>{{.V}}</"+e+">", "", p.contentClass(e))
+		checkCell(c, "<"+e+" lang=\"en\" />{{.V}}", "", p.contentClass(e))
 	}
 	checkCell(c, "{{.V}}", "", "HTML")
 	// 3. link rel
@@ -379,6 +382,9 @@ func run(c *core.Ctx) {
 				checkCell(c, "<"+e+" "+a+"=\"{{.V}}{{.V}}\">", a, "Reject")
 				checkCell(c, "<"+e+" "+a+"=\"{{if .C}}{{else}}x{{end}}{{.V}}\">", a, "Reject")
 				checkCell(c, "<"+e+" "+a+"=\"{{if .C}}{{.V}}{{else}}x{{end}}y\">", a, "Reject")
+				checkCell(c, "<"+e+" "+a+"=\"{{if .NC}}x{{else}}{{.V}}{{end}}y\">", a, "Reject")
+				checkCell(c, "<"+e+" "+a+"=\"{{if .NC}}x{{else}}{{end}}{{.V}}\">", a, "Reject")
+				checkCell(c, "<"+e+" "+a+"='{{if .C}}{{.V}}t{{else}}x{{end}}y'>", a, "Reject")
 			}
 		}
 	}
@@ -391,6 +397,10 @@ func run(c *core.Ctx) {
 		checkCell(c, "<"+e+" title=\"x\" {{.V}}>", "", "Reject")
 		checkCell(c, "<"+e+"{{.V}} title=\"x\">", "", "Reject")
 		checkCell(c, "<"+e+" title{{.V}}=\"x\">", "", "Reject")
+		// attribute name present on one branch only
+		checkCell(c, "<"+e+" {{if .C}}title{{end}}=\"{{.V}}\">", "", "Reject")
+		checkCell(c, "<"+e+" {{if .C}}{{else}}title{{end}}='{{.V}}'>", "", "Reject")
+		checkCell(c, "<"+e+" {{with .C}}href{{end}}={{.V}}>", "", "Reject")
 	}
 	// 5. conditional element / attribute names: at least as strict as both alternatives
 	stricter := func(a, b string) []string { return []string{a, b} }
